@@ -694,6 +694,9 @@ func (n *Node) ClusterNodes() string {
 	return n.clusterNodesLocked()
 }
 
+// ClusterNodesLocked renders CLUSTER NODES as this node would answer it now.
+func (n *Node) ClusterNodesLocked() string { return n.clusterNodesLocked() }
+
 func (n *Node) clusterNodesLocked() string {
 	var b strings.Builder
 	for _, o := range n.cl.Nodes {
